@@ -63,6 +63,13 @@ class YosysBehavioralRTLIRToVVisitorL2(
       start = f"( {start} )"
     if isinstance( node.end, ( bir.BinOp, bir.IfExp, bir.Compare ) ):
       end = f"( {end} )"
+    # The loop variable is signed: a bound that is signed as well (an outer
+    # loop variable) must not turn the loop condition into a signed
+    # comparison of a truncated, possibly negative number
+    if s._is_signed_expr( node.start ):
+      start = f"$unsigned( {start} )"
+    if s._is_signed_expr( node.end ):
+      end = f"$unsigned( {end} )"
 
     loop_var = "__loopvar__" + s.blk.__name__ + "_" + loop_var
     if loop_var not in s.loopvars:
@@ -144,9 +151,28 @@ class YosysBehavioralRTLIRToVVisitorL2(
   # visit_Compare
   #-----------------------------------------------------------------------
 
+  def _is_signed_expr( s, node ):
+    # The loop variables of this backend are integers, i.e. signed, and a
+    # size cast keeps the signedness of its operand.
+    if isinstance( node, bir.LoopVar ):
+      return True
+    if isinstance( node, bir.UnaryOp ):
+      return s._is_signed_expr( node.operand )
+    if isinstance( node, bir.BinOp ) and \
+       not isinstance( node.op, ( bir.ShiftLeft, bir.ShiftRightLogic ) ):
+      return s._is_signed_expr( node.left ) and s._is_signed_expr( node.right )
+    return False
+
   def visit_Compare( s, node ):
     node.left._top_expr = 1
     node.right._top_expr = 1
+    if s._is_signed_expr( node.left ) and s._is_signed_expr( node.right ):
+      # Two signed operands would be compared as signed numbers:
+      # 2'(i) < 2'(j) with i = 2 compares -2
+      op  = s.ops[ type( node.op ) ]
+      lhs = s.visit( node.left )
+      rhs = s.visit( node.right )
+      return f'$unsigned( {lhs} ) {op} $unsigned( {rhs} )'
     return super().visit_Compare( node )
 
   #-----------------------------------------------------------------------
